@@ -5,6 +5,7 @@ import (
 	"go/constant"
 	"go/token"
 	"go/types"
+	"sort"
 	"strings"
 
 	"golang.org/x/tools/go/ssa"
@@ -1839,4 +1840,145 @@ func definitelyNonNil(v ssa.Value) bool {
 		}
 	}
 	return false
+}
+
+// mutableGlobals: module package-level variables that something outside a package initialiser can modify: a store to the
+// variable, a store/map update/delete through its loaded value, or its address handed to a call (pointer-receiver methods
+// such as sync.Map.Store, Mutex.Lock) outside init. Variables that are only ever assigned nil/zero and read are not
+// included (a never-allocated debug table is inert).
+func (p *Prog) mutableGlobals() map[*ssa.Global]string {
+	if p.mglob != nil {
+		return p.mglob
+	}
+	out := map[*ssa.Global]string{}
+	for _, f := range p.Funcs {
+		if isPkgInit(f) {
+			continue
+		}
+		eachInstr(f, func(i ssa.Instruction) {
+			for _, op := range i.Operands(nil) {
+				if op == nil || *op == nil {
+					continue
+				}
+				g, ok := (*op).(*ssa.Global)
+				if !ok || g.Pkg == nil || !strings.HasPrefix(g.Pkg.Pkg.Path(), Mod) {
+					continue
+				}
+				switch x := i.(type) {
+				case *ssa.Store:
+					if x.Addr == ssa.Value(g) {
+						out[g] = "assigned in " + shortName(f)
+					}
+				case *ssa.UnOp:
+					// a load: look at what is done with the loaded value
+					for _, ref := range *x.Referrers() {
+						switch u := ref.(type) {
+						case *ssa.MapUpdate:
+							if u.Map == ssa.Value(x) {
+								out[g] = "map updated in " + shortName(f)
+							}
+						case *ssa.Call:
+							if bi, ok := u.Call.Value.(*ssa.Builtin); ok && bi.Name() == "delete" {
+								out[g] = "map entry deleted in " + shortName(f)
+							}
+						case *ssa.IndexAddr:
+							for _, r2 := range *u.Referrers() {
+								if st, ok := r2.(*ssa.Store); ok && st.Addr == ssa.Value(u) {
+									out[g] = "element stored in " + shortName(f)
+								}
+							}
+						}
+					}
+				case *ssa.FieldAddr, *ssa.IndexAddr:
+					v := i.(ssa.Value)
+					for _, ref := range *v.Referrers() {
+						switch r2 := ref.(type) {
+						case *ssa.Store:
+							if r2.Addr == v {
+								out[g] = "field/element stored in " + shortName(f)
+							}
+						case ssa.CallInstruction:
+							out[g] = "part of it handed to a call in " + shortName(f)
+						}
+					}
+				case ssa.CallInstruction:
+					out[g] = "its address is handed to " + calleeName(x.Common()) + " in " + shortName(f)
+				}
+			}
+		})
+	}
+	// element stores through a global that is never allocated cannot happen
+	for g, why := range out {
+		if strings.HasPrefix(why, "element stored") && !p.globalEverAllocated(g) {
+			delete(out, g)
+		}
+	}
+	p.mglob = out
+	return out
+}
+
+// globalEverAllocated: some store anywhere (including initialisers) assigns a non-nil value to g.
+func (p *Prog) globalEverAllocated(g *ssa.Global) bool {
+	found := false
+	for _, f := range p.Funcs {
+		eachInstr(f, func(i ssa.Instruction) {
+			if st, ok := i.(*ssa.Store); ok && st.Addr == ssa.Value(g) && !isNilConst(st.Val) {
+				found = true
+			}
+		})
+	}
+	return found
+}
+
+// checkNoMutableState: the functions reachable from roots inside the accepted packages consult no mutable module-level
+// state (tables filled by initialisers are fine): their result is a function of their arguments, so it cannot depend on
+// what was asked before (a memo keyed too coarsely, a shared scratch buffer, a "last hit").
+func checkNoMutableState(p *Prog, r *Report, rule, what string, roots []*ssa.Function, within func(*ssa.Function) bool, consequence string) {
+	mg := p.mutableGlobals()
+	reach := p.modReach(roots...)
+	var fns []*ssa.Function
+	for f := range reach {
+		if within(f) {
+			fns = append(fns, f)
+		}
+	}
+	sort.Slice(fns, func(i, j int) bool { return fns[i].String() < fns[j].String() })
+	seen := map[string]bool{}
+	n := 0
+	for _, f := range fns {
+		n++
+		eachInstr(f, func(i ssa.Instruction) {
+			for _, op := range i.Operands(nil) {
+				if op == nil || *op == nil {
+					continue
+				}
+				g, ok := (*op).(*ssa.Global)
+				if !ok {
+					continue
+				}
+				why, mut := mg[g]
+				if !mut || relPkgOfGlobal(g) == "internal/logger" {
+					continue
+				}
+				key := f.String() + "|" + g.Name()
+				if seen[key] {
+					continue
+				}
+				seen[key] = true
+				r.Bad(rule, what+" "+shortName(f)+" uses mutable package state "+g.Name(), p.Pos(posOf(i)), what+" consults the package-level variable "+g.Name()+", which is modified at run time ("+why+"): "+consequence)
+			}
+		})
+	}
+	if n == 0 {
+		r.Und(rule, what+" functions", "", "no function found on this path")
+		return
+	}
+	r.OK(rule, what+" is a function of its arguments", "", fmt.Sprintf("%d functions consult no run-time-modified package state", n))
+}
+
+func relPkgOfGlobal(g *ssa.Global) string {
+	if g.Pkg == nil {
+		return ""
+	}
+	return strings.TrimPrefix(strings.TrimPrefix(g.Pkg.Pkg.Path(), Mod), "/")
 }
